@@ -404,6 +404,35 @@ Proof.
   exact (step_call_closure ob _ lp i bc fp lamp cep Hc Hip Hs Hacc Hg).
 Qed.
 
+(* (call/cc f) = (f k), f a closure: one instruction after the CALL of call/cc the machine is
+   at the SAME CALL instruction with f in %acc and the single argument k on the stack; the
+   next instruction is the ordinary CALL of f — the state [called] that CALL produces from
+   ANY state at a CALL of that closure (last clause) *)
+Theorem callcc_is_call m lp i bc fp lamp cep :
+  at_callcc m lp i bc false fp (VClosure lamp cep) -> heap_inv (hp m) -> allocated (hp m) fp ->
+  let sc := s_cap m lp i fp in
+  run_one m = ROk false sc /\
+  ip sc = (lp, i) /\ acc sc = VPtr fp /\ heap_get (hp sc) fp = Ok (VClosure lamp cep) /\
+  sget sc (sp sc) = VArgc 1 /\
+  (exists kp, sget sc (sp sc - 1) = VPtr kp /\ cell_at (hp sc) kp = VCont (next_id (st m)) /\
+              tget (conts (st sc)) (next_id (st m)) = Some (k_cap m lp i)) /\
+  run_one sc = ROk false (called sc lp i lamp) /\
+  (forall m' lp' i' bc' a, code_in m' lp' bc' -> ip m' = (lp', i') -> seg bc' i' [VOp OCallAcc] ->
+     acc m' = VPtr a -> heap_get (hp m') a = Ok (VClosure lamp cep) ->
+     run_one m' = ROk false (called m' lp' i' lamp)).
+Proof.
+  intros H HI A sc. pose proof (callcc_step _ _ _ _ _ _ _ H) as E1.
+  destruct (s_cap_spec _ _ _ _ _ _ _ H HI A) as (kp & _ & Ckp & _ & Hk & _ & _ & _ & _ & _ & _ & _ & _ &
+    Hip & Hc & Hacc & Hg & _ & _ & Hargc' & Harg' & _).
+  split; [exact E1|]. split; [exact Hip|]. split; [exact Hacc|]. split; [exact Hg|].
+  split; [exact Hargc'|]. split; [exists kp; split; [exact Harg'|split; [exact Ckp|exact Hk]]|].
+  split.
+  - destruct H as [_ _ Hs _ _ _ _ _ _ _].
+    exact (step_call_closure ob _ lp i bc fp lamp cep Hc Hip Hs Hacc Hg).
+  - intros m' lp' i' bc' a Hc' Hip' Hs' Hacc' Hg'.
+    exact (step_call_closure ob m' lp' i' bc' a lamp cep Hc' Hip' Hs' Hacc' Hg').
+Qed.
+
 (* a closure-less lambda *)
 Theorem callcc_lambda m lp i bc fp lid :
   at_callcc m lp i bc false fp (VLambda lid) -> heap_inv (hp m) -> allocated (hp m) fp ->
